@@ -81,6 +81,75 @@ fn subset(mask: u32, n: u32) -> Vec<(u64, u64)> {
     v
 }
 
+
+/// a canonical value with exactly `k` ranges: lengths 1..=4, gaps 2..=5 (gap 2 = a single missing
+/// height between two ranges, so that one-height arguments bridge them), starting at `base`
+fn many_value(rng: &mut Rng, k: usize, base: u64) -> Vec<(u64, u64)> {
+    let mut v = Vec::with_capacity(k);
+    let mut s = base.max(2);
+    for _ in 0..k {
+        let e = s + rng.range(0, 3);
+        v.push((s, e));
+        s = e + *rng.pick(&[2, 2, 3, 4, 5]);
+    }
+    v
+}
+
+/// indices of the stored ranges to probe: both ends, the size thresholds a size-dependent code
+/// path would use (8, 16, 32 ±1) and a few random ones
+fn probe_indices(rng: &mut Rng, k: usize, extra: usize) -> Vec<usize> {
+    let mut idx: Vec<usize> = vec![0, 1, k / 2, k.saturating_sub(2), k - 1];
+    for t in [7usize, 8, 9, 15, 16, 17, 31, 32, 33] {
+        if t < k {
+            idx.push(t);
+        }
+    }
+    for _ in 0..extra {
+        idx.push(rng.usize(0, k - 1));
+    }
+    idx.sort();
+    idx.dedup();
+    idx
+}
+
+/// arguments placed relative to the stored range `v[i]` (and its neighbours): touching from
+/// below / above, bridging exactly, overlapping by one, at distance 2, spanning several ranges
+fn probe_args(v: &[(u64, u64)], i: usize) -> Vec<(u64, u64, &'static str)> {
+    let (s, e) = v[i];
+    let mut a = vec![
+        (s - 1, s - 1, "touch-below"),
+        (e + 1, e + 1, "touch-above"),
+        (s - 1, s, "overlap-start"),
+        (e, e + 1, "overlap-end"),
+        (e + 2, e + 2, "dist2-above"),
+        (s, e, "exact"),
+    ];
+    if s >= 3 {
+        a.push((s - 2, s - 2, "dist2-below"));
+    }
+    if let Some(&(ns, ne)) = v.get(i + 1) {
+        a.push((e + 1, ns - 1, "bridge-exact"));
+        a.push((e + 1, ns, "bridge-overlap"));
+        if ns - e >= 4 {
+            a.push((e + 2, ns - 2, "gap-interior"));
+        }
+        a.push((e, ns, "bridge-both-overlap"));
+        if let Some(&(_, nne)) = v.get(i + 2) {
+            a.push((s, nne, "span-3"));
+            a.push((e + 1, nne + 1, "span-from-touch"));
+        }
+        let _ = ne;
+    }
+    if i >= 1 {
+        let (_, pe) = v[i - 1];
+        a.push((pe + 1, s - 1, "bridge-exact-below"));
+    }
+    if e - s >= 2 {
+        a.push((s + 1, e - 1, "interior"));
+    }
+    a
+}
+
 impl C17 {
     fn reg(&self, line: &str, key: &str) -> (String, BlockRanges) {
         let k = arg(line, key).unwrap_or("a").to_string();
@@ -142,6 +211,99 @@ impl C17 {
         }
     }
 
+
+    /// values with MANY ranges (size-dependent code paths): every operation around a sample of
+    /// the stored ranges with arguments that touch / bridge / overlap by one / stay at distance 2
+    fn many_ops(rng: &mut Rng, out: &mut Emitter, k: usize, base: u64, extra: usize) {
+        let v = many_value(rng, k, base);
+        let sv = fmt_vec(&v);
+        let tag = if k > 32 { "many33+" } else if k > 16 { "many17-32" } else if k > 8 { "many9-16" } else { "many<=8" };
+        out.op(format!("set d=a v={sv}"), &format!("{tag}/set"), true);
+        for op in ["len", "is_empty", "head", "tail", "partitions"] {
+            out.op(format!("{op} x=a"), &format!("{tag}/{op}"), true);
+        }
+        out.op("edges x=a d=b", &format!("{tag}/edges"), true);
+        out.op("not x=a d=b", &format!("{tag}/not"), true);
+        out.op("not x=b d=c", &format!("{tag}/not-not"), true);
+        let total: u64 = v.iter().map(|(s, e)| e - s + 1).sum();
+        for n in [0, 1, 2, 3, total / 2, total - 2, total - 1, total, total + 1, u64::MAX] {
+            out.op(format!("headn x=a n={n} d=b"), &format!("{tag}/headn"), true);
+            out.op(format!("tailn x=a n={n} d=b"), &format!("{tag}/tailn"), true);
+        }
+        for i in probe_indices(rng, k, extra) {
+            let (s, e) = v[i];
+            for h in [s - 1, s, e, e + 1] {
+                out.op(format!("contains x=a h={h}"), &format!("{tag}/contains"), true);
+                out.op(format!("left_of x=a h={h}"), &format!("{tag}/left_of"), true);
+                out.op(format!("right_of x=a h={h}"), &format!("{tag}/right_of"), true);
+            }
+            for (a, b, kind) in probe_args(&v, i) {
+                out.op(format!("find x=a s={a} e={b}"), &format!("{tag}/find/{kind}"), true);
+                out.op(format!("set d=t v={sv}"), &format!("{tag}/set"), false);
+                out.op(format!("insert x=t s={a} e={b}"), &format!("{tag}/insert/{kind}"), true);
+                // everything built on the result
+                if rng.chance(1, 3) {
+                    out.op("edges x=t d=b", &format!("{tag}/edges-after-insert"), true);
+                    out.op("len x=t", &format!("{tag}/len-after-insert"), true);
+                    out.op("partitions x=t", &format!("{tag}/partitions-after-insert"), true);
+                    out.op(format!("headn x=t n={} d=b", total / 2), &format!("{tag}/headn-after-insert"), true);
+                }
+                out.op(format!("set d=t v={sv}"), &format!("{tag}/set"), false);
+                out.op(format!("remove x=t s={a} e={b}"), &format!("{tag}/remove/{kind}"), true);
+                // the argument as a one-range value through the operators
+                out.op(format!("set d=b v={a}-{b}"), &format!("{tag}/set"), false);
+                out.op("add x=a y=b d=c", &format!("{tag}/add-one/{kind}"), true);
+                out.op("add x=b y=a d=c", &format!("{tag}/add-many-into-one/{kind}"), true);
+                if rng.chance(1, 3) {
+                    out.op("and x=a y=b d=c", &format!("{tag}/and-one"), true);
+                    out.op("sub x=a y=b d=c", &format!("{tag}/sub-one"), true);
+                }
+            }
+        }
+        // set operations with a many-range second operand
+        // (1) exactly the gaps of `a` (adjacent on both sides: the union is one range)
+        let gaps: Vec<(u64, u64)> = v.windows(2).map(|w| (w[0].1 + 1, w[1].0 - 1)).collect();
+        // (2) every other gap; (3) `a` shifted up by one; (4) an independent many-range value
+        let every_other: Vec<(u64, u64)> = gaps.iter().step_by(2).cloned().collect();
+        let shifted: Vec<(u64, u64)> = {
+            let mut w: Vec<(u64, u64)> = vec![];
+            for &(s, e) in &v {
+                match w.last_mut() {
+                    Some(l) if l.1 + 1 >= s + 1 => l.1 = e + 1,
+                    _ => w.push((s + 1, e + 1)),
+                }
+            }
+            w
+        };
+        let shift = rng.range(0, 3);
+        let other = many_value(rng, k, base + shift);
+        for (b, kind) in [(gaps, "gaps"), (every_other, "every-other-gap"), (shifted, "shifted"), (other, "independent")] {
+            out.op(format!("set d=b v={}", fmt_vec(&b)), &format!("{tag}/set"), false);
+            for op in ["add", "or", "sub", "and"] {
+                out.op(format!("{op} x=a y=b d=c"), &format!("{tag}/{op}/{kind}"), true);
+                out.op(format!("{op} x=b y=a d=c"), &format!("{tag}/{op}-rev/{kind}"), true);
+            }
+            out.op("edges x=c d=c", &format!("{tag}/edges-of-result"), true);
+        }
+        // from_vec with many ranges: adjacent neighbours (merged by the constructor), one defect deep inside
+        let mut adj = v.clone();
+        for j in (1..adj.len()).step_by(3) {
+            adj[j].0 = adj[j - 1].1 + 1;
+        }
+        out.op(format!("set d=c v={}", fmt_vec(&adj)), &format!("{tag}/from_vec-adjacent"), true);
+        out.op("edges x=c d=b", &format!("{tag}/edges"), true);
+        let mut bad = v.clone();
+        let j = rng.usize(k / 2, k - 1);
+        if rng.bool() { bad.swap(j, j - 1) } else { bad[j] = (bad[j].1 + 1, bad[j].0) }
+        out.op(format!("set d=c v={}", fmt_vec(&bad)), &format!("{tag}/from_vec-defect"), true);
+        // drain a little from both ends
+        out.op(format!("set d=t v={sv}"), &format!("{tag}/set"), false);
+        for _ in 0..4 {
+            out.op("pop_head x=t", &format!("{tag}/pop_head"), true);
+            out.op("pop_tail x=t", &format!("{tag}/pop_tail"), true);
+        }
+    }
+
     fn binary_ops(out: &mut Emitter, a: &[(u64, u64)], b: &[(u64, u64)], tag: &str) {
         out.op(format!("set d=a v={}", fmt_vec(a)), &format!("{tag}/set"), false);
         out.op(format!("set d=b v={}", fmt_vec(b)), &format!("{tag}/set"), false);
@@ -178,13 +340,22 @@ impl C17 {
         }
     }
 
-    fn history(rng: &mut Rng, out: &mut Emitter, steps: usize, small: bool) {
+    fn history(rng: &mut Rng, out: &mut Emitter, steps: usize, small: bool, init_many: Option<usize>) {
         // the generator keeps shadow values (computed with the real code) only to choose
         // arguments close to existing range boundaries
         let names = ["a", "b", "c"];
         let mut shadow = vec![BlockRanges::new(), BlockRanges::new(), BlockRanges::new()];
         out.op("reset", "hist/reset", false);
-        let tag = if small { "hist-small" } else { "hist-u64" };
+        let tag = if init_many.is_some() { "hist-many" } else if small { "hist-small" } else { "hist-u64" };
+        if let Some(k) = init_many {
+            // start from values that already hold many ranges
+            for (i, name) in names.iter().enumerate().take(2) {
+                let base = if small { 2 } else { *rng.pick(&[2, 1 << 40, u64::MAX - 500]) };
+                let v = many_value(rng, k, base);
+                out.op(format!("set d={name} v={}", fmt_vec(&v)), "hist-many/set", true);
+                shadow[i] = BlockRanges::from_vec(v.iter().map(|(s, e)| *s..=*e).collect()).unwrap_or_default();
+            }
+        }
         for _ in 0..steps {
             let i = rng.usize(0, 2);
             let j = rng.usize(0, 2);
@@ -292,7 +463,12 @@ impl Prop for C17 {
          single-range methods on every pair of ranges over 0..4 and at the u64::MAX edge; from_vec on \
          valid, adjacent, overlapping, unsorted and invalid vectors; random histories over three registers \
          (small heights, and the full u64 range with arguments drawn next to existing boundaries, 0, 1, \
-         2^63, u64::MAX). Non-trivial = operand value non-empty / argument range valid (tag rule in the \
+         2^63, u64::MAX); MANY-RANGE values (9..64 ranges, every size in thorough, 9/10/16/17/24/33/64 in \
+         quick; at 2, 2^40 and just below u64::MAX): for the ranges at both ends, at indices 7..9, 15..17, 31..33 \
+         and random ones, every op with arguments touching from below/above, bridging exactly, overlapping by \
+         one, at distance 2, spanning 3 ranges, interior; set operations with many-range second operands (the \
+         gaps, every other gap, shifted by one, independent); from_vec with many ranges; histories started \
+         from many-range values. Non-trivial = operand value non-empty / argument range valid (tag rule in the \
          generator); distinct = distinct (op, result) lines."
     }
     fn gen_ops(&mut self, rng: &mut Rng, tier: Tier, out: &mut Emitter) {
@@ -436,11 +612,26 @@ impl Prop for C17 {
             let b = subset(rng.below(1024) as u32, 10);
             Self::binary_ops(out, &a, &b, "pairs10");
         }
+        // 4b. values with many ranges (size-dependent code paths: > 8, > 16, > 32 ranges)
+        let sizes: Vec<usize> = if thorough { (9..=64).collect() } else { vec![9, 10, 16, 17, 24, 33, 64] };
+        for (n, &k) in sizes.iter().enumerate() {
+            let base = match n % 3 {
+                0 => 2,
+                1 => (1u64 << 40) + rng.range(0, 5),
+                _ => u64::MAX - 9 * k as u64 - 40,
+            };
+            Self::many_ops(rng, out, k, base, if thorough { 6 } else { 1 });
+        }
+        for i in 0..(if thorough { 120 } else { 8 }) {
+            let mut r = rng.fork();
+            let k = *r.pick(&[9usize, 12, 17, 20, 33, 40]);
+            Self::history(&mut r, out, if thorough { 300 } else { 80 }, i % 2 == 0, Some(k));
+        }
         // 5. random histories
         let (hn, hl) = if thorough { (400, 500) } else { (30, 120) };
         for i in 0..hn {
             let mut r = rng.fork();
-            Self::history(&mut r, out, hl, i % 3 == 0);
+            Self::history(&mut r, out, hl, i % 3 == 0, None);
         }
     }
 
